@@ -95,6 +95,13 @@ Theorem init_or_is_and : forall flags, flags <> [] -> (forall b, In b flags -> b
 Proof. exact init_or_is_and_lemma. Qed.
 Print Assumptions init_or_is_and.
 
+(* the faithful model combines the initial-run flags with max (= any): without the hypothesis of
+   init_or_is_and the multinet flag is NOT the conjunction *)
+Theorem init_converged_is_all_refuted :
+  exists flags, init_converged flags = true /\ forallb (fun b => b) flags = false.
+Proof. exists [true; false]. split; reflexivity. Qed.
+Print Assumptions init_converged_is_all_refuted.
+
 (* ---- non-vacuity *)
 Example hhv_example : (14.62197 <> 0)%R /\ (p2g_written 50 (1/2) 16 (1/2) * 1152 = 250)%R.
 Proof. split; [lra|]. unfold p2g_written, conversion_factor_mw_to_kgps. field. Qed.
